@@ -19,7 +19,7 @@ import traceback
 from .runner import Stats, pmap, NWORKERS, HarnessError
 
 
-def bfs(ctx, step, ops, max_depth, init=None, label="", max_states=None, count_outcome=None):
+def bfs(ctx, step, ops, max_depth, init=None, label="", max_states=None, count_outcome=None, wrap=None):
     st = ctx.stats
     r0 = step([])
     seen = {r0["key"]}
@@ -58,7 +58,7 @@ def bfs(ctx, step, ops, max_depth, init=None, label="", max_states=None, count_o
                         ws.outcomes[count_outcome(h2, r2)] += 1
                     if r2["viol"]:
                         for sig, msg in r2["viol"]:
-                            ws.violation(sig, h2, msg)
+                            ws.violation(sig, wrap(h2) if wrap else h2, msg)
                         continue
                     if not r2.get("expand", True):
                         ws.skipped[r2.get("why", "pruned")] += 1
@@ -81,7 +81,7 @@ def bfs(ctx, step, ops, max_depth, init=None, label="", max_states=None, count_o
                     if nt:
                         st.nontrivial += 1
                     if (len(seen) + ctx.seed) % 997 == 0:
-                        st.sample(h2, 4)
+                        st.sample(wrap(h2) if wrap else h2, 4)
         per_level.append(len(new))
         frontier = new
         if max_states and len(seen) > max_states:
